@@ -75,6 +75,13 @@ func VH_C08_supervise() {
 		fresh0 = vhLogged("c0b")
 		return fresh0
 	})))
+	// the failing child may itself have a live child: its restart / stop then
+	// completes only when that child has terminated
+	var g0 *Context
+	if vrtChoose(2) == 1 {
+		g0 = w.spawn(c0, "g0", vhLogged("g0"))
+		vrtReach("failing-child-has-a-child")
+	}
 	c1 := w.spawn(p, "c1", a1)
 	g1a := vhLogged("g1")
 	g1 := w.spawn(c1, "g1", g1a)
@@ -115,6 +122,12 @@ func VH_C08_supervise() {
 			vrtAssert(len(w.boxes[c].usr) == 0 && len(w.boxes[c].sys) == 0, "no-survivor-left-with-undelivered-mail")
 		}
 		vrtAssert(c.state == running || c.state == killed, "nobody-half-stopped")
+	}
+	if g0 != nil {
+		vrtAssert(g0.state == running || g0.state == killed, "nobody-half-stopped")
+		if dec.IsRestart() || dec.IsStop() || dec.IsEscalate() {
+			vrtAssert(g0.state == killed, "children-of-a-restarted-or-stopped-actor-terminate")
+		}
 	}
 	cur0 := a0
 	switch {
@@ -521,4 +534,112 @@ func VH_C09_zombie_sibling() {
 		vrtAssert(vhCountEnv(w.boxes[p], noticeA) <= 1, "zombie-release-reported-to-parent-exactly-once")
 		vrtReach("released-by-parent")
 	}
+}
+
+// VH_C08_second_failure_while_awaiting_decision: tree p -> c -> d. c fails on a
+// user message; before p has decided, d terminates and c's handler fails again
+// on that OnKilled{d} (a system message, delivered although c's mailbox is
+// paused). These are two failures: p's strategy is consulted once for each and
+// both decisions are applied; nobody is left paused or half-stopped.
+func VH_C08_second_failure_while_awaiting_decision() {
+	vhLog = nil
+	w := vhNewWorld()
+	dp := &vhDecider{decision: vivid.SupervisionDecision(1 + vrtChoose(6))}
+	vrtAssume(!dp.decision.IsEscalate())
+	pa := vhLogged("p")
+	p := w.spawn(w.root, "p", pa, vivid.WithActorSupervisionStrategy(vivid.OneForOneStrategy(dp)))
+	ca := vhLogged("c")
+	logIt := ca.onMsg
+	useFailed := vrtBool()
+	ca.onMsg = func(ctx vivid.ActorContext, m vivid.Message) {
+		logIt(ctx, m)
+		switch k := m.(type) {
+		case *vhBoom:
+			panic("first")
+		case *vivid.OnKilled:
+			if !k.Ref.Equals(ctx.Ref()) {
+				if useFailed {
+					ctx.Failed("second")
+				}
+				panic("second")
+			}
+		}
+	}
+	c := w.spawn(p, "c", ca)
+	d := w.spawn(c, "d", vhLogged("d"))
+	c.TellSelf(&vhBoom{})
+	c.TellSelf(&vhUserMsg{N: 2})
+	w.runOnly(50, "first-failure", c)
+	vrtAssert(w.boxes[c].paused, "setup-first-failure-pauses")
+	w.root.Kill(d.ref, false, "x")
+	w.runOnly(100, "second-failure", d, c)
+	vrtAssert(d.state == killed, "setup-child-terminated")
+	w.run(800, "supervision-terminates")
+	vrtAssert(dp.calls == 2, "strategy-consulted-once-per-failure")
+	for _, x := range []*Context{p, c} {
+		vrtAssert(x.state == running || x.state == killed, "nobody-half-stopped")
+		if x.state == running && !x.zombie {
+			vrtAssert(!w.boxes[x].paused, "no-survivor-left-paused")
+			vrtAssert(len(w.boxes[x].usr) == 0 && len(w.boxes[x].sys) == 0, "no-survivor-left-with-undelivered-mail")
+		}
+	}
+	if dp.decision.IsStop() {
+		vrtAssert(c.state == killed, "stop-terminates-target")
+	}
+	vrtReach("two-failures")
+}
+
+// VH_C03_paused_again_while_stopping: t is being stopped but lingers in
+// `killing` because its child s is slow to terminate. In that window its
+// mailbox is paused again (a sibling fails under one-for-all supervision and the
+// directive reaches t as well). Mail sent to t while it is paused, and mail sent
+// after it has terminated through the reference that cached its mailbox, is
+// still processed or dead-lettered exactly once.
+func VH_C03_paused_again_while_stopping() {
+	vhLog = nil
+	w := vhNewWorld()
+	dec := vivid.SupervisionDecisionStop
+	switch vrtChoose(3) {
+	case 1:
+		dec = vivid.SupervisionDecisionGracefulStop
+	case 2:
+		dec = vivid.SupervisionDecisionResume
+	}
+	dp := &vhDecider{decision: dec}
+	p := w.spawn(w.root, "p", vhLogged("p"), vivid.WithActorSupervisionStrategy(vivid.OneForAllStrategy(dp)))
+	ta := vhLogged("t")
+	t := w.spawn(p, "t", ta)
+	s := w.spawn(t, "s", vhLogged("s"))
+	b := w.spawn(p, "b", vhFailing("b", false))
+	rec := w.spawn(w.root, "rec", &vhActor{name: "rec"})
+	es := w.sys.eventStream.(*eventStream)
+	es.Subscribe(rec, ves.DeathLetterEvent{})
+
+	w.root.Kill(t.ref, false, "stop")
+	w.runOnly(50, "stop-begins", t)
+	vrtAssert(atomic.LoadInt32(&t.state) == killing && s.state == running, "setup-target-lingers-in-killing")
+	b.TellSelf(&vhBoom{})
+	w.runOnly(200, "sibling-fails", b, p, t)
+	vrtAssert(atomic.LoadInt32(&t.state) == killing, "setup-target-lingers-in-killing")
+	if w.boxes[t].paused {
+		vrtReach("paused-again-while-stopping")
+	}
+	w.root.tell(false, t.ref, &vhUserMsg{N: 2}) // while (possibly) paused
+	w.run(800, "terminates")                    // the slow child finally terminates, t follows
+	vrtAssert(t.state == killed, "target-terminated")
+	w.root.tell(false, t.ref, &vhUserMsg{N: 3}) // afterwards, through the reference with the cached mailbox
+	w.run(800, "terminates")
+	for _, n := range []int{2, 3} {
+		processed := vhSeenUser(ta, n)
+		dead := 0
+		for _, e := range w.boxes[rec].all {
+			if d, ok := e.Message().(ves.DeathLetterEvent); ok {
+				if u, ok := d.Envelope.Message().(*vhUserMsg); ok && u.N == n {
+					dead++
+				}
+			}
+		}
+		vrtAssert(processed+dead == 1, "exactly-one-fate")
+	}
+	vrtAssert(len(w.boxes[t].usr) == 0, "no-mail-parked-in-a-terminated-actor")
 }
